@@ -828,7 +828,27 @@ def run_case(desc: dict, monitors=(), gsc_cap=30000, run=True) -> Ctx:
                     else:
                         tree = DemeTree(cfg)
                         ctx.emit("tree_ready", tree)
-                        if run:
+                        if run and desc.get("entry") == "hand":
+                            # a run driven by hand through the public run_metaepoch() / run_sprout() (the metaepoch counter is
+                            # only advanced by run_step(), so it stays where it is); the harness marks the step boundaries itself
+                            for _ in range(int(desc.get("hand_steps", 6))):
+                                with activate(None):
+                                    stop = bool(tree._gsc(tree))
+                                if stop:
+                                    break
+                                ctx.step += 1
+                                ctx.in_step = True
+                                ctx.step_start_idx = len(ctx.log)
+                                ctx.emit("step_begin", tree)
+                                tree.run_metaepoch()
+                                with activate(None):
+                                    stop = bool(tree._gsc(tree))
+                                if not stop:
+                                    tree.run_sprout()
+                                ctx.in_step = False
+                                ctx.emit("step_end", tree)
+                                ctx.cov["hand_driven_metaepochs"] += 1
+                        elif run:
                             for _ in range(int(desc.get("steps_before_run", 0))):
                                 # a run carried out in pieces: a few explicit steps (as a user loop would do), then run()
                                 with activate(None):
